@@ -92,7 +92,7 @@ def gen_histories(chk):
             plan = [(1, 2), (0, 3 if quick else 4)] if ci else [(1, 2 if quick else 3), (0, 4)]
         for level, depth in plan:
             g = L.Gen(shape, kind, sizes, tiny)
-            for init_els in ([[1, 2], [3], [4, 5, 6]], [[], [7]]):
+            for init_els in ([[1, 2], [3], [4, 5, 6]], [[], [7]]) + (([[], []],) if level else ()):
                 g.counter = 10
                 init = f'new:{tiny}:{g.bpr()}:1:{L.enc_elems(init_els)}'
                 for toks in L.exhaustive(g, init, depth, level):
@@ -300,7 +300,9 @@ def run(chk: Check):
     imports = ('From Coq Require Import ZArith List Bool Arith. Import ListNotations.\n'
                'From NV Require Import C15.Model.\n'
                'Definition deq : forall a b : list (result * list (nat * (nat * list (list Z)))), {a = b} + {a <> b}.\n'
-               'Proof. repeat decide equality. Defined.\n')
+               'Proof. repeat decide equality. Defined.\n'
+               '(* Model.v has a record called seq; the shared template needs List.seq *)\n'
+               'Notation seq := List.seq (only parsing).\n')
     ncase, bad = vm_crosscheck(PROP, imports, pairs)
     chk.vm = {'cases': ncase, 'disagreements': len(bad)}
     if bad:
@@ -310,7 +312,19 @@ def run(chk: Check):
                       found_input=False, theorem='extraction cross-check')
 
 
-UNPROVED = []
+UNPROVED = [
+    'C15_own_contents for seq[idx] = other_sequence (OSetIdx ... (VSeq j): element-by-element copy with NumPy '
+    'one-row broadcasting, possibly a partial assignment before a ValueError): only preservation of the invariant '
+    '(wf_step) is proved; the values are tied by the correspondence check only',
+    'no single simulation theorem abs(step st o) = spec_step (abs st) o against an abstract list-with-sharing machine '
+    'is stated: what is proved, for every reachable state, is per operation (a) the contents of the target / created '
+    'object as a list function of the old contents and (b) the value of every element of every other object',
+    'C15_view_write_through at full strength is false of the faithful model (C15_view_write_through_refuted, S-C15d); '
+    'proved: _partial (exactly the same-cell elements change, i.e. while the two objects share the buffer)',
+    'not modelled, hence no theorem: operators with a sequence operand (seq + seq), tuple indices, concatenate(axis != 0), '
+    'save/load, the ValueError of append on a trailing-shape mismatch (which detaches a view before raising), '
+    'shrink_data() called directly on a view',
+]
 
 
 def replay(chk, obj):
